@@ -15,6 +15,9 @@ static thread_local std::mt19937_64 eng{sSeed};
 void SetSeed(std::uint32_t new_seed) {
   sSeed = new_seed;
   eng.seed(new_seed);
+#if YACLIB_FAULT == 2
+  sRandCount = 0;
+#endif
 }
 
 std::uint32_t GetSeed() {
